@@ -68,12 +68,12 @@ def _check_main(run, P):
              "of all its operands", minimum=4)
     run.rule("C09.const", "a constant is complex by its *type*: the test is an "
              "isinstance() over the built-in and numpy's complex scalar types", minimum=1)
-    _const(run, P)
-    _operands(run, P)
-    _total(run, P)
-    _arity_tables(run, P)
-    _unify_real(run, P)
-    _real(run, P)
+    run.do(_const, run, P)
+    run.do(_operands, run, P)
+    run.do(_total, run, P)
+    run.do(_arity_tables, run, P)
+    run.do(_unify_real, run, P)
+    run.do(_real, run, P)
     from . import c14
     from .c01 import _alias
     for r in ("C14.swallow", "C14.latch"):
@@ -89,7 +89,7 @@ def _check_main(run, P):
     for r in ("C14.progress", "C14.fixpoint"):
         run.rule_docs[r] = ""
         run.minimum[r] = 0
-    c14._worklist(run, P)
+    run.do(c14._worklist, run, P)
     for o in run.obs:
         if o.rule in ("C14.progress", "C14.fixpoint"):
             o.rule = "C09.fix"
